@@ -87,4 +87,22 @@ TEXT = {
         "note": "history clause = C08_independent applied per mutation (every mutator of the model is a write to cells reachable from its receiver; for tree-form writes "
                 "this is exercised dynamically, the per-mutator footprint lemma is proved for Clone and the deriving ops only); no axioms.",
     },
+    "C10": {
+        "engine": "heap",
+        "design_ref": "DESIGN.md section 6, C10",
+        "technique": "Coq proof (induction over paths and over the string surgery of GetTF/TypeOfTF; arbitrary strings for the agreement theorem) + differential correspondence check with path corruptions",
+        "text": "C10_get: GetTF on every well-formed path (rendered with canonical decimal indices) equals step-by-step navigation, panics included; C10_typeof: TypeOfTF is "
+                "that value's kind or Undefined; C10_agree: for EVERY string and heap TypeOfTF = kind of GetTF's result, Undefined exactly when GetTF panics, and TypeOfTF is total. "
+                "Known finding K1 (keys starting with a sigil are reachable through an empty segment) is demonstrated as an Example and re-demonstrated on the code by every run.",
+        "note": "pint0 (strconv.ParseInt base 0) transcribed and proved to invert Itoa (GoIntProofs); other index spellings ParseInt accepts are specified by the model and exercised by the check; no axioms.",
+    },
+    "C11": {
+        "engine": "heap",
+        "design_ref": "DESIGN.md section 6, C11",
+        "technique": "Coq proof (step/leaf lemmas for the branch-by-branch transcription of SetTF/UnsetTF, induction over paths, frame by visited-container sets) + differential correspondence check on random trees and paths",
+        "text": "C11_set_read_back: on acyclic heaps SetTF on every well-formed path succeeds whatever is in the way and GetTF then yields the stored value; "
+                "C11_set_never_panics; C11_set_frame: only visited containers are rewritten, containers keep their kind (right-kind intermediates reused by reference); "
+                "C11_unset: exactly the addressed field/element is removed; C11_unset_frame/absent_key/index_out_of_range: nothing else changes, unresolved paths change nothing.",
+        "note": "holds after the repair of D6 (fix: commit b2b927c); partial in one named respect: the model pads with any index, the process cannot (generated indices stay below n+5); no axioms.",
+    },
 }
